@@ -401,6 +401,18 @@ def handleLine (st : St) (line : String) : St × String :=
         (st, s!"trace={",".intercalate (o.trace.map (upStr dst))} reply={replyStr o.reply} | cache={";".intercalate keys} err={errc}")
       | _, _ => (st, "bad-op")
     | _, _, _, _, _, _, _, _, _ => (st, "bad-op")
+  | ["pref", name, qt1, qt2, rx, recs1, recs2] =>
+    -- ip_version_prefer: the non-preferred answer waits for the preferred one; both are relayed unchanged
+    match parseName name, qt1.toNat?, qt2.toNat?, parseList "rx:" rx, parseRecs recs1, parseRecs recs2, st.reqProg, st.respProg with
+    | some nm, some qt1, some qt2, some rx, some recs1, some recs2, some P, some Q =>
+      let cfg : Cfg := { nUp := st.nUp, req := P, resp := Q, maxDepth := st.maxDepth, dead := st.dead }
+      let one (qt : Nat) (recs : List Rec) (cache : Cache) : Outcome :=
+        let q : Question := { name := nm, qtype := qt, rx := rx }
+        handle cfg cache 1 false (some q) (fun _ _ => some { isResponse := true, q := some q, recs := recs, rcodeOk := true })
+      let o1 := one qt1 recs1 st.cache
+      let o2 := one qt2 recs2 o1.cache
+      ({ st with cache := o2.cache }, s!"r1={replyStr o1.reply} r2={replyStr o2.reply}")
+    | _, _, _, _, _, _, _, _ => (st, "bad-op")
   | ["pair", name, qt, rx, recs] =>
     -- two clients with different as-is resolvers ask the same question at the same time: each is resolved
     -- at its own resolver (the singleflight key carries the scope)
